@@ -288,6 +288,10 @@ Section Analyze.
                 a_trig := arg_triggers e (fun i => SParam g i) 0 args ++ [mk_trigger 0 (PSite (SResult g)) (CSite (SResult f))];
                 a_gsafe := forallb (fun a => use_ok (prods_of_atom e a)) args; a_rsafe := false |}
     | SConv x _ _ => Some {| a_env := Some (aputk e x [PNever]); a_trig := store_triggers x [PNever]; a_gsafe := true; a_rsafe := true |}
+    | SConvI x y _ _ =>
+        (* an interface value converted to another interface type: nil stays nil *)
+        let ps := prods_of_atom e (AVar y) in
+        Some {| a_env := Some (aputk e x ps); a_trig := store_triggers x (norm ps); a_gsafe := use_ok ps || negb (is_glob x); a_rsafe := true |}
     | SCallI _ d x xi k m args =>
         (* calling a method on an interface value dereferences it; arguments and result go through the sites of
            the interface method *)
@@ -357,6 +361,14 @@ Fixpoint convs_of (st : stmt) : list (nat * nat) :=
   | _ => []
   end.
 
+Fixpoint iconvs_of (st : stmt) : list (nat * nat) :=
+  match st with
+  | SSeq a b | SIf _ a b => iconvs_of a ++ iconvs_of b
+  | SWhile _ b => iconvs_of b
+  | SConvI _ _ k k2 => [(k, k2)]
+  | _ => []
+  end.
+
 Fixpoint seq_from (i n : nat) : list nat := match n with O => [] | S n' => i :: seq_from (S i) n' end.
 
 (* method m of the implementation, function f with np parameters (the receiver first): a nil-able result of f makes
@@ -375,8 +387,21 @@ Fixpoint affil_methods (funcs : list func) (k m : nat) (row : list fname) : list
       end ++ affil_methods funcs k (S m) row'
   end.
 
+(* the methods of I_k implemented by S_j: the first ones of the row of S_j *)
+Definition isig (p : program) (k : nat) : list nat := nth k (p_isig p) [].
 Definition affil (p : program) (kj : nat * nat) : list strig :=
-  affil_methods (p_funcs p) (fst kj) 0 (nth (snd kj) (p_impls p) []).
+  affil_methods (p_funcs p) (fst kj) 0 (firstn (length (isig p (fst kj))) (nth (snd kj) (p_impls p) [])).
+
+(* an interface value of type I_k2 used as an I_k: method m of I_k2 "implements" method m of I_k *)
+Definition ilink_method (k k2 m np : nat) : list strig :=
+  mk_trigger 0 (PSite (SIResult k2 m)) (CSite (SIResult k m)) ::
+  map (fun i => mk_trigger 0 (PSite (SIParam k m i)) (CSite (SIParam k2 m i))) (seq_from 0 np).
+Fixpoint ilink_methods (k k2 m : nat) (sig : list nat) : list strig :=
+  match sig with
+  | [] => []
+  | np :: sig' => ilink_method k k2 m np ++ ilink_methods k k2 (S m) sig'
+  end.
+Definition iaffil (p : program) (kk : nat * nat) : list strig := ilink_methods (fst kk) (snd kk) 0 (isig p (fst kk)).
 
 Fixpoint calls_of (st : stmt) : list (fname * nat) :=
   match st with
@@ -449,7 +474,7 @@ Definition analyze_program (fuel : nat) (ctr : fname -> bool) (pk : fname -> nat
       let rs := rsafe_all (length (p_ginit p)) fuel ctr sp 0 (p_funcs p) in
       Some {| r_decl := decl_triggers 0 (p_ginit p); r_funcs := drop_safe rs sp 0 tss;
               r_nodel := none_exempt rs sp 0 tss; r_dups := dups_all ctr sp tss 0 (p_funcs p);
-              r_affil := map (fun fd => flat_map (affil p) (convs_of (f_body fd))) (p_funcs p);
+              r_affil := map (fun fd => flat_map (affil p) (convs_of (f_body fd)) ++ flat_map (iaffil p) (iconvs_of (f_body fd))) (p_funcs p);
               r_gsafe := b; r_clocal := ctr_local ctr sp 0 (p_funcs p) |}
   end.
 
@@ -468,6 +493,20 @@ Section WF.
     | CNonNil x | CDeref _ x => var_ok x
     | CNot c1 => cond_ok c1
     | CAnd c1 c2 | COr c1 c2 => cond_ok c1 && cond_ok c2
+    end.
+  Fixpoint conform_from (row : list fname) (sig : list nat) : bool :=
+    match sig, row with
+    | [], _ => true
+    | np :: sig', f :: row' =>
+        match nth_error (p_funcs p) f with Some fd => Nat.eqb (f_nparams fd) (S np) | None => false end && conform_from row' sig'
+    | _ :: _, [] => false
+    end.
+  Definition conform (k j : nat) : bool := conform_from (nth j (p_impls p) []) (isig p k).
+  Fixpoint prefix_b (a b : list nat) : bool :=
+    match a, b with
+    | [], _ => true
+    | x :: a', y :: b' => Nat.eqb x y && prefix_b a' b'
+    | _ :: _, [] => false
     end.
   Fixpoint stmt_ok (st : stmt) : bool :=
     match st with
@@ -497,17 +536,17 @@ Section WF.
     | SIf c a b => cond_ok c && stmt_ok a && stmt_ok b
     | SWhile c b => cond_ok c && stmt_ok b
     | SReturn a => atom_ok a
-    | SConv x _ _ => var_ok x
-    | SCallI _ _ x xi _ m args =>
+    | SConv x k j =>
+        (* S_j implements I_k: its row has, method by method, a function with the receiver and the parameters of the
+           interface method *)
+        var_ok x && conform k j
+    | SConvI x y k k2 =>
+        (* the methods of I_k are the first methods of I_k2 *)
+        var_ok x && var_ok y && prefix_b (isig p k) (isig p k2)
+    | SCallI _ _ x xi k m args =>
         var_ok xi && forallb atom_ok args && match x with Some y => var_ok y | None => true end &&
-        (* whatever concrete type the interface value holds, its method m takes the receiver and these arguments *)
-        forallb (fun row => match nth_error row m with
-                            | Some f => match nth_error (p_funcs p) f with
-                                        | Some fd => Nat.eqb (f_nparams fd) (S (length args))
-                                        | None => false
-                                        end
-                            | None => true
-                            end) (p_impls p)
+        (* I_k has a method m with these parameters *)
+        match nth_error (isig p k) m with Some np => Nat.eqb np (length args) | None => false end
     end.
   (* ... and the entry point takes no parameters *)
   Definition wf_program : bool :=
